@@ -11,6 +11,16 @@ def _runs(f, seeds=(1, 2, 3)):
     return [run_replay(cfg, s) for s in seeds]
 
 
+def does_not_terminate(f):
+    """the scenario does not return on the real crates either (2 minutes; the same scenario takes well under a second on the unchanged tree)"""
+    import subprocess
+    try:
+        run_replay(f.detail.get('replay_cfg', f.cfg), 1, timeout=120)
+    except subprocess.TimeoutExpired:
+        return True, {'real crates': 'no result after 120 s', 'scenario': f.detail.get('replay_cfg', f.cfg)}
+    return False, None
+
+
 def honest_rejected(f):
     """C01/C12: an honest scenario (prove then verify) fails on the real crates"""
     outs = _runs(f)
@@ -382,7 +392,18 @@ def challenges_unchanged(f):
         alt = {'tamper_statement': {'op': 'promise', 'j': idx, 'value': 'other'}}
     elif kind == 'bit':
         alt = {'tamper_statement': {'op': 'bit_length', 'n': n * 2 if n < 64 else n // 2}}
-    elif kind in ('extension', 'aggregation'):
+    elif kind == 'aggregation':
+        # the absorbed "M" must be the aggregation factor and nothing else: the same honest proof then verifies under a statement over parameters of
+        # ANOTHER capacity (same commitments, promises, generators); if it does not, M (or something else that is absorbed) depends on the capacity
+        bad = []
+        for (mm, c1, c2) in ((1, 1, 4), (m, max(cap, m), 2 * max(cap, m)), (m, 2 * max(cap, m), max(cap, m))):
+            o = run_replay({'scenario': 'batch', 'n': n, 'x': x, 'members': [{'m': mm, 'cap': c1, 'tamper_statement': {'op': 'capacity', 'cap': c2}}], 'actions': ['VerifyOnly']}, 1)
+            if 'crash' in o or not o.get('verify'):
+                continue
+            if o['verify'][0]['result'] != 'ok':
+                bad.append({'aggregation': mm, 'proved over capacity': c1, 'verified over capacity': c2, 'verifier': o['verify'][0]['result']})
+        return (len(bad) > 0), bad[:2]
+    elif kind == 'extension':
         return None, 'integer field: not replayable by a single-datum change through the API'
     else:
         e = {'A': x, 'A1': x + 1, 'B': x + 2}.get(kind)
@@ -729,8 +750,8 @@ def weights_predictable(f):
     c = f.cfg
     n, x = c['n'], c.get('x', 1)
     ms = [(mm.get('m', 1), mm.get('cap', mm.get('m', 1))) for mm in c['members']][:3]
-    if len(ms) < 2:
-        ms = ms + [(1, 1)]
+    while len(ms) < 3:
+        ms = ms + [(1, 1)]       # three members: some attacks (weights in a low-dimensional family) need three
     found = []
     recipe = f.detail.get('weight_recipe')
     for (seeded, dup) in ((False, False), (True, False)) + (((False, True),) if recipe else ()):
